@@ -215,8 +215,39 @@ def parse_state(text):
         out[m.group(0)] = p.value()
 
 
+_FIELD = re.compile(r'([A-Za-z_][A-Za-z0-9_]*)\s*\|->')
+
+
+def _to_json_text(output):
+    """TLA+ value syntax -> JSON text by character substitution (records [a |-> x] -> {"a": x}, tuples and sets ->
+    arrays); valid for the values our specs print (no function displays, no special characters in strings)"""
+    t = output.replace("[", "\x01").replace("]", "\x02")
+    t = t.replace("<<", "[").replace(">>", "]").replace("{", "[").replace("}", "]")
+    t = t.replace("\x01", "{").replace("\x02", "}")
+    t = _FIELD.sub(r'"\1":', t)
+    t = re.sub(r'\bTRUE\b', 'true', t)
+    t = re.sub(r'\bFALSE\b', 'false', t)
+    return t
+
+
 def printed_values(output, tag):
-    """all values TLC printed with PrintT(<<tag, ...>>); robust to line wrapping by bracket matching"""
+    """all values TLC printed with PrintT(<<tag, ...>>); robust to line wrapping.  Fast path: substitution into JSON
+    and the C decoder; fallback: the recursive-descent parser of TLA+ values"""
+    if ":>" not in output and "@@" not in output:
+        try:
+            t = _to_json_text(output)
+            dec = json.JSONDecoder()
+            res = []
+            for m in re.finditer(r'\[\s*"%s"' % re.escape(tag), t):
+                v, _ = dec.raw_decode(t, m.start())
+                res.append(v)
+            return res
+        except Exception:
+            pass
+    return _printed_values_slow(output, tag)
+
+
+def _printed_values_slow(output, tag):
     res = []
     pat = re.compile(r'<<\s*"%s"' % re.escape(tag))
     i = 0
